@@ -34,6 +34,12 @@ CHECKS = {
         text="Seeded histories of init/fetch/feed/reseed/save/load/ascon_random/free/power-loss on a simulated device: the entropy tape and its faults come from a wrapped getrandom(), the flash page and its faults from the ascon_storage_t callbacks. Oracles are the sentences of the property: same plan twice => same output; flipping one consumed tape byte or one fed byte changes every later block >= 16 bytes; after every init/fetch/feed/reseed/save/load p^-1(state) has a zero rate; a fetch after 16384 produced bytes draws from the source first; every status equals the injected health of source/storage. Sampling over histories x fault sequences.",
         note="Trusted: harness p^-1 (self-tested against the library at start-up); Linux no-split guarantee for getrandom <= 256 bytes; status convention of random.h as repaired by the F12 fix commit.",
         design="§3 W3, §4 C15"),
+    "C19": dict(
+        technique="deterministic simulation: the tools' real main() in forked simulated processes over an in-memory file system with scripted syscall faults (EINTR/EAGAIN/short I/O/EIO/ENOSPC/open failure), crash points, tampering and entropy failure; thorough adds systematic k-th-call and every-byte sweeps",
+        category="exploration",
+        text="Seeded scenarios of asconcrypt (-e/-d/auto-detect/-o/-p/-k/-g/stdin-stdout) and asconsum (hash and -c check mode) run as simulated processes against a simulated OS; faults and crash points are attached to a specific call of a specific invocation. Oracles: round-trip identity; exit != 0 and no output file after wrong password, any bit flip, truncation (= writer crashed after any prefix), extension, any hard I/O fault or entropy failure; transient faults end in correct success or loud failure; asconsum output equals the library digest lines; check mode says OK exactly for unmodified files. Thorough adds fault_enumeration-style sweeps (k-th read/write fails for every k; every truncation length; one bit in every byte) on small files; the claimed level stays exploration because scenarios are sampled.",
+        note="Trusted: the simulated OS (simos.c) and the harness' container check via library calls; PBKDF2 rounds reduced by a wrapper in most runs; close() errors and list-file read errors in check mode are not judged (not in the statement).",
+        design="§3 W5, §4 C19"),
     "C07": dict(
         technique="deterministic simulation: seeded interleaved object histories (chunking, copy, re-init, free, dirty-memory reuse) checked against the library's own single-call form",
         category="exploration",
